@@ -362,6 +362,8 @@ where
                 };
 
                 // Otherwise further checking is applicable.
+                #[cfg(getong_stateright_verif)]
+                crate::verif_hooks::yield_point("dfs.after_arbitration");
                 is_terminal = false;
                 let mut next_fingerprints = Vec::with_capacity(1 + fingerprints.len());
                 for f in &fingerprints {
